@@ -126,6 +126,25 @@ theorem C05_lock_held_across_closure_blocks_release :
       (fun s => decide ((step skLockAcrossClosure s (.callRecover 0 eLinkCtx)).isSome = true)) = some true := by
   refine ⟨?_, ?_, ?_, ?_⟩ <;> decide
 
+/-- The same for a release that WAITS for running invocations (`clFreeNeverWaits` flipped): the mutex is free, yet
+    the cancelled call (normal path) and the call whose link ended (panic path) cannot return while the peer's
+    handler is inside the closure — and can as soon as the body is done.  On the panic path the stub has not
+    reached `setErr` yet: `Link` keeps blocking on a dead link and a LATER failure is stored first. -/
+theorem C05_release_that_waits_blocks_the_call :
+    (run skFreeWaits init cancelWhileClosureRuns).map
+      (fun s => decide (s.running 9 = some 0 ∧ s.clLock = none ∧ (s.calls 0).pc = .decoded ∧
+                        (step skFreeWaits s (.callReturnOk 0)).isSome = false ∧
+                        (step Skeleton.current s (.callReturnOk 0)).isSome = true)) = some true ∧
+    (run skFreeWaits init (cancelWhileClosureRuns ++ [.closureBodyDone 9])).map
+      (fun s => decide ((step skFreeWaits s (.callReturnOk 0)).isSome = true)) = some true ∧
+    (run skFreeWaits init linkEndsWhileClosureRuns).map
+      (fun s => decide (s.clLock = none ∧ (s.calls 0).pc = .panicking eLinkCtx ∧ s.fatalLog = [] ∧
+                        (step skFreeWaits s (.callRecover 0 eLinkCtx)).isSome = false ∧
+                        (step Skeleton.current s (.callRecover 0 eLinkCtx)).isSome = true)) = some true ∧
+    (run skFreeWaits init (linkEndsWhileClosureRuns ++ [.closureBodyDone 9])).map
+      (fun s => decide ((step skFreeWaits s (.callRecover 0 eLinkCtx)).isSome = true)) = some true := by
+  refine ⟨?_, ?_, ?_, ?_⟩ <;> decide
+
 /-- `utils.Call` is one reflect call under a deferred recover: nothing in it can wait and it touches no
     package-level state (checked against the regenerated skeleton) — handlers nest `utils.Call` (a handler
     invoking a closure), so anything acquired there and held across the call could exhaust and deadlock. -/
@@ -145,6 +164,7 @@ end Panrpc.Ep
 #print axioms Panrpc.Ep.C05_closure_lock_never_held_across_a_body
 #print axioms Panrpc.Ep.C05_release_never_disabled_by_a_running_closure
 #print axioms Panrpc.Ep.C05_lock_held_across_closure_blocks_release
+#print axioms Panrpc.Ep.C05_release_that_waits_blocks_the_call
 
 #print axioms Panrpc.Ep.C05_no_crash
 #print axioms Panrpc.Ep.C05_projects_to_broadcaster
